@@ -16,7 +16,8 @@ Model driver for C19. Line protocol (fields separated by one space; strings are 
   Q  - | item,item,…  (item = <key>=<value> | !)          K  - | t.<token> | r.<raw Cookie header>
   T  - | <content type>          B  - | f.<items> | o.<opaque bytes>
   D  - | <secret>=<authorization uuid>=<user uuid>,…       (api_client_authorizations rows)
-  toks  - | <tok>:<lookup>;…     lookup = n (401) | e (other error) | f.<uuid>.<api_token>
+  toks  - | <tok>:<lookup>;…     lookup = n (401) | e<status> | x (error without status) | f.<uuid>.<api_token>
+  item separators '~' and '^' instead of '=' select alternative percent-encodings (same item)
 
 The MAC is the executable HMAC-SHA1 of Base/SHA1.lean with key = secret, message = remote id.
 -/
@@ -44,7 +45,10 @@ def parseItems (s : String) : Option (List QItem) :=
   if s == "-" then some [] else
   (s.splitOn ",").mapM (fun it =>
     if it == "!" then some QItem.bad else
-    match it.splitOn "=" with
+    -- the separator only selects how the Go driver percent-encodes the item ('=' canonical,
+    -- '~' every byte of the key escaped, '^' non-alphanumerics of the key and every byte of the
+    -- value escaped); the value-level item is the same
+    match (it.replace "~" "=").replace "^" "=" |>.splitOn "=" with
     | [k, v] => do some (QItem.good (← unhexC k) (← unhexC v))
     | _ => none)
 
@@ -90,8 +94,9 @@ def parseDB (s : String) : Option (Str → Option (Str × Str)) :=
   some (fun secret => (rows.find? (fun r => r.1 == secret)).map (·.2))
 
 def parseLookup (s : String) : Option Lookup :=
-  if s == "n" then some .unauthorized
-  else if s == "e" then some .failed
+  if s == "n" then some (.error 401)
+  else if s == "x" then some (.error 500)          -- an error without HTTP status
+  else if s.startsWith "e" then ((s.drop 1).toString.toNat?).map .error
   else if s.startsWith "f." then
     match (s.drop 2).toString.splitOn "." with
     | [u, a] => do some (.found (← unhexC u) (← unhexC a))
@@ -166,7 +171,7 @@ def step (line : String) : String :=
         let lookup := fun (t : Str) =>
           match ts.find? (fun p => p.1 == t) with
           | some p => p.2
-          | none => Lookup.unauthorized
+          | none => Lookup.error 401
         showProv (op == "provhttp") (provider hmacSha1 rm lookup (some (ts.map (·.1))))
       | _, _ => "bad-op"
     else if op == "keep" then
@@ -183,7 +188,7 @@ def step (line : String) : String :=
     else "bad-op"
   | ["provnc", rm] =>
     match unhex rm with
-    | some rm => showProv false (provider hmacSha1 rm (fun _ => .unauthorized) none)
+    | some rm => showProv false (provider hmacSha1 rm (fun _ => .error 401) none)
     | none => "bad-op"
   | _ => "bad-op"
 
